@@ -67,6 +67,12 @@ CLAIMED = {
         text="Inputs: raw .nvm images mutated from compiler-produced seeds with the CRC recomputed, and modules assembled from FuzzedDataProvider bytes through the public nvm_* API (weighted 90-opcode alphabet, boundary operands incl. 2^31/2^32/INT64 extremes, arbitrary function-table fields) then patched at arbitrary u32 offsets and re-checksummed. Every accepted import-free module is executed with 20 000 instructions of fuel (hook H1). Violations: any sanitizer report or signal in loader, verifier or VM, or a decode/invalid-opcode error at an instruction boundary the verifier walked. Evidence counts how many inputs were loaded / verified / executed.",
         note="Only crash- artifacts count; oom-/slow-/timeout- artifacts are load noise (memory exhaustion by huge allocations is not in the statement). Campaigns are approximately reproducible from VERIF_SEED; artifacts are the reproducible unit. The daemon path (no verifier call) belongs to C18.",
         design="3/C13"),
+    "C05": dict(
+        category="exploration",
+        technique="catalogue of rule-violating snippets (ill-formed by construction) inserted at generated positions into Hypothesis-generated well-typed programs; oracle over four tool invocations: non-zero exit, diagnostic, no artifact, sentinel never printed",
+        text="44 snippet variants over 14 rule classes (operand/argument type, arity of user functions and builtins, unknown and out-of-scope names, use before declaration, assignment to immutable variable/parameter, missing return, return type, non-bool condition, let/set type, unknown field/variant, consumed resource, extern outside unsafe) x 6 placements (top/end of main, nested block, loop body, other function, shadow body), exhaustively on a minimal base program and sampled on generated base programs; nanoc -o, nano_virt --run, --emit-nvm, -o are all required to refuse without leaving an artifact or executing the sentinel-printing main/shadow blocks.",
+        note="Variants/placements that are recorded findings are excluded by construction and counted (ledger c05_variants / c05_placements). nanoc does not echo shadow-block output without --verbose, so 'executed nothing' is observable for nanoc only through the artifact and exit status.",
+        design="3/C05"),
 }
 
 NOT_YET = {
